@@ -70,7 +70,10 @@ def set_strategy(tier):
             caps.append({"lines": lines, "dur": draw(st.integers(20, 200)),
                          "slack": draw(st.sampled_from([0, 1, 2, 3, 4, 5, 30, 300])),
                          "sub": draw(st.integers(0, 33000))})
-        return {"caps": caps, "lead": draw(st.sampled_from([0, 0, 1, 30, 3000]))}
+        if len(caps) >= 2 and draw(st.integers(0, 3)) == 0:
+            caps[-1]["lines"] = list(caps[0]["lines"])      # a repeated caption text
+        return {"caps": caps, "lead": draw(st.sampled_from([0, 0, 1, 30, 3000])),
+                "reuse": draw(st.integers(0, 3)) == 0}
     return build()
 
 
@@ -140,8 +143,16 @@ def check_set(case, rec):
     m = build_set(case)
     cs = model.to_pycaption(m)
     cues = m["langs"][0]["cues"]
+    writer = SCCWriter()
+    if case.get("reuse"):
+        # the writer object (and the process) has written the same texts before
+        try:
+            writer.write(model.to_pycaption(m))
+        except Exception:  # noqa
+            pass
+        rec.label("reused-writer")
     with must("SCCWriter.write"):
-        out = SCCWriter().write(cs)
+        out = writer.write(cs)
     raw = out.split("\n")
     require(raw[0] == "Scenarist_SCC V1.0", lambda: f"first line is {raw[0]!r}")
     parsed = []
